@@ -37,7 +37,9 @@ RULE = (
     "float64, float64 then integer, float32 with float64), integer weights; plus histories on ONE instance (region=None or given): "
     "cloud A, another cloud (other size and bounding box), a subset, A with other data, A again, then clones taken after the calls, and "
     "in-place histories (the same ndarrays shifted / permuted / restored between calls) - every return judged against its own arguments "
-    "and the constructor parameters compared before/after each call. Non-trivial = at least 2 occupied blocks, a block with >= 2 members whose data differ, and an empty block "
+    "and the constructor parameters compared before/after each call; re-configuration histories (built with P1, optionally used, then "
+    "1..3 of spacing / shape<->spacing / region None<->given / adjust / center_coordinates / drop_coords / reduction changed by "
+    "set_params, attribute assignment or clone().set_params, then used: judged with the parameters in force at call time). Non-trivial = at least 2 occupied blocks, a block with >= 2 members whose data differ, and an empty block "
     "present; distinct = hash of (coordinates, data, weights, configuration)."
 )
 ASSUMPTIONS = [
@@ -53,31 +55,43 @@ ASSUMPTIONS = [
 FLOORS = {
     "quick": {
         "eval:filter_layout": 1000, "eval:labels_vs_reference_geometry": 1000, "eval:params_unchanged_by_filter": 1000,
-        "eval:block_value": 12800, "eval:block_coordinate": 18100, "eval:sum_conserved": 59, "eval:weights_refused": 3,
-        "distinct_nontrivial": 530, "class:weights:given": 420, "class:series_input_with_custom_index": 330,
-        "class:center_coordinates:True": 450, "class:drop_coords:False": 370, "class:empty_blocks:present": 730,
-        "class:data_dtype_present:int16": 100, "class:data_dtype_present:int32": 100, "class:data_dtype_present:int64": 100,
-        "class:data_dtype_present:float32": 180, "class:mixed_data_dtypes:integer_then_float64": 35,
-        "class:mixed_data_dtypes:float64_then_integer": 28, "class:mixed_data_dtypes:float32_then_float64": 30,
-        "class:mixed_data_dtypes:float64_then_float32": 35, "class:weights_dtype_present:int32": 69,
-        "class:weights_dtype_present:int64": 64, "class:history:reuse_calls": 130, "class:history:reuse_calls:region_none": 95,
+        "eval:block_value": 13800, "eval:block_coordinate": 19700, "eval:sum_conserved": 62, "eval:weights_refused": 3,
+        "distinct_nontrivial": 580, "class:weights:given": 440, "class:series_input_with_custom_index": 330,
+        "class:center_coordinates:True": 480, "class:drop_coords:False": 410, "class:empty_blocks:present": 780,
+        "class:data_dtype_present:int16": 110, "class:data_dtype_present:int32": 110, "class:data_dtype_present:int64": 100,
+        "class:data_dtype_present:float32": 190, "class:mixed_data_dtypes:integer_then_float64": 38,
+        "class:mixed_data_dtypes:float64_then_integer": 31, "class:mixed_data_dtypes:float32_then_float64": 34,
+        "class:mixed_data_dtypes:float64_then_float32": 38, "class:weights_dtype_present:int32": 73,
+        "class:weights_dtype_present:int64": 69, "class:history:reuse_calls": 130, "class:history:reuse_calls:region_none": 95,
         "class:history:reuse_calls:region_given": 11, "class:history:reuse_calls:center_coordinates": 56,
         "class:history:inplace_calls": 67, "class:history:inplace_calls:region_none": 41,
-        "class:history:clone_after_filter_calls": 38,
+        "class:history:clone_after_filter_calls": 38, "class:reconfigured_calls": 48, "class:reconfigured:how:set_params": 12,
+        "class:reconfigured:how:attribute_assignment": 12, "class:reconfigured:how:clone_then_set_params": 13,
+        "class:reconfigured:used_before": 22, "class:reconfigured:never_used_before": 21, "class:reconfigured:param:spacing": 10,
+        "class:reconfigured:param:shape_vs_spacing": 10, "class:reconfigured:param:region": 10,
+        "class:reconfigured:param:adjust": 9, "class:reconfigured:param:center_coordinates": 10,
+        "class:reconfigured:param:drop_coords": 10, "class:reconfigured:param:reduction": 11,
     },
     "thorough": {
-        "eval:filter_layout": 15000, "eval:labels_vs_reference_geometry": 15000, "eval:params_unchanged_by_filter": 15000,
-        "eval:block_value": 201200, "eval:block_coordinate": 285000, "eval:sum_conserved": 990, "eval:weights_refused": 16,
-        "distinct_nontrivial": 8200, "class:weights:given": 6700, "class:series_input_with_custom_index": 5100,
-        "class:center_coordinates:True": 6900, "class:drop_coords:False": 5800, "class:empty_blocks:present": 11200,
-        "class:data_dtype_present:int16": 1600, "class:data_dtype_present:int32": 1700, "class:data_dtype_present:int64": 1700,
-        "class:data_dtype_present:float32": 2900, "class:mixed_data_dtypes:integer_then_float64": 590,
-        "class:mixed_data_dtypes:float64_then_integer": 590, "class:mixed_data_dtypes:float32_then_float64": 570,
-        "class:mixed_data_dtypes:float64_then_float32": 550, "class:weights_dtype_present:int32": 1100,
+        "eval:filter_layout": 16100, "eval:labels_vs_reference_geometry": 16100, "eval:params_unchanged_by_filter": 16100,
+        "eval:block_value": 217200, "eval:block_coordinate": 311700, "eval:sum_conserved": 1000, "eval:weights_refused": 16,
+        "distinct_nontrivial": 8900, "class:weights:given": 7100, "class:series_input_with_custom_index": 5100,
+        "class:center_coordinates:True": 7400, "class:drop_coords:False": 6400, "class:empty_blocks:present": 11900,
+        "class:data_dtype_present:int16": 1800, "class:data_dtype_present:int32": 1800, "class:data_dtype_present:int64": 1800,
+        "class:data_dtype_present:float32": 3100, "class:mixed_data_dtypes:integer_then_float64": 620,
+        "class:mixed_data_dtypes:float64_then_integer": 620, "class:mixed_data_dtypes:float32_then_float64": 610,
+        "class:mixed_data_dtypes:float64_then_float32": 590, "class:weights_dtype_present:int32": 1200,
         "class:weights_dtype_present:int64": 1100, "class:history:reuse_calls": 2000,
         "class:history:reuse_calls:region_none": 1500, "class:history:reuse_calls:region_given": 390,
         "class:history:reuse_calls:center_coordinates": 1000, "class:history:inplace_calls": 1000,
         "class:history:inplace_calls:region_none": 760, "class:history:clone_after_filter_calls": 570,
+        "class:reconfigured_calls": 720, "class:reconfigured:how:set_params": 230,
+        "class:reconfigured:how:attribute_assignment": 220, "class:reconfigured:how:clone_then_set_params": 230,
+        "class:reconfigured:used_before": 350, "class:reconfigured:never_used_before": 350,
+        "class:reconfigured:param:spacing": 200, "class:reconfigured:param:shape_vs_spacing": 200,
+        "class:reconfigured:param:region": 200, "class:reconfigured:param:adjust": 180,
+        "class:reconfigured:param:center_coordinates": 190, "class:reconfigured:param:drop_coords": 190,
+        "class:reconfigured:param:reduction": 210,
     },
 }
 JOBS = {"quick": 1, "thorough": 16}
@@ -87,8 +101,8 @@ CALLS_PER_CASE = 8
 
 def plan(tier):
     if tier == "quick":
-        return collections.OrderedDict(random=160, edges=36, series=42, tiny=10, refused=3, nested=8, reuse=24, inplace=14)
-    return collections.OrderedDict(random=2400, edges=540, series=640, tiny=120, refused=14, nested=100, reuse=360, inplace=210)
+        return collections.OrderedDict(random=160, edges=36, series=42, tiny=10, refused=3, nested=8, reuse=24, inplace=14, reconfigure=30)
+    return collections.OrderedDict(random=2400, edges=540, series=640, tiny=120, refused=14, nested=100, reuse=360, inplace=210, reconfigure=450)
 
 
 def value_range(values):
@@ -377,9 +391,53 @@ def _history(run, rng, verde, inplace):
             "data_dtypes": dtypes, "weighted": weighted, "calls_on_one_instance": calls}
 
 
+def _reconfigured(run, rng, verde):
+    """
+    Built with P1, optionally used, then re-configured to P2 (set_params / attribute assignment / clone().set_params) and used:
+    the monitor judges the call with the parameters in force when it was made (get_params snapshot just before the call).
+    """
+    east, north = blk.make_points(rng, n=int(rng.integers(10, 50)), kind=str(rng.choice(["uniform", "jitter", "clusters"])))
+    kwargs = blk.history_blocks(rng, east, north)
+    kwargs["drop_coords"] = bool(rng.random() < 0.5)
+    ncomp = int(rng.choice([1, 2]))
+    weighted = bool(rng.random() < 0.4)
+    pool = WEIGHTED if weighted else UNWEIGHTED
+    reduction = pool[int(rng.integers(0, len(pool)))]
+    dtypes = blk.choose_dtypes(rng, ncomp)
+
+    def arguments():
+        data = _fields(rng, east, north, ncomp, dtypes)
+        wts = _weights(rng, east.size, ncomp) if weighted else None
+        coords = (east, north, gen.smooth_field(rng, east, north, amplitude=50.0))
+        return coords, (data[0] if ncomp == 1 else tuple(data)), (None if wts is None else (wts[0] if ncomp == 1 else tuple(wts)))
+
+    reducer = verde.BlockReduce(reduction, **kwargs)
+    with warnings.catch_warnings():
+        warnings.simplefilter("ignore")
+        used = bool(rng.random() < 0.5)
+        if used:
+            reducer.filter(*arguments())
+        kinds = ["spacing", "shape_vs_spacing", "region", "adjust", "center_coordinates", "drop_coords", "reduction", "reduction"]
+        changes, names = blk.pick_changes(rng, reducer.get_params(deep=False), east, north, sorted(set(kinds)), reductions=pool)
+        reducer, how = blk.reconfigure(rng, reducer, changes)
+        reducer.filter(*arguments())
+    run.count("class:reconfigured_calls")
+    run.count("class:reconfigured:how:" + how)
+    run.count("class:reconfigured:" + ("used_before" if used else "never_used_before"))
+    for name in names:
+        run.count("class:reconfigured:param:" + name)
+    return {"constructed_with": dict(kwargs, reduction=getattr(reduction, "__name__", "?")), "used_before_the_change": used, "how": how,
+            "changed_to": {k: (getattr(v, "__name__", v) if callable(v) else v) for k, v in changes.items()}}
+
+
 def run_case(run, tap, stream, index, rng):
     import verde
 
+    if stream == "reconfigure":
+        for _ in range(4):
+            info = _reconfigured(run, rng, verde)
+        run.sample("reconfigured_instance", info)
+        return
     if stream == "reuse":
         for _ in range(2):
             info = _history(run, rng, verde, inplace=False)
